@@ -463,14 +463,6 @@ func verifC05CheckEffects(x *kvm.Machine, op *vs.Op) {
 		}
 		return false
 	}
-	sessionVerbAfter := func(i int) bool {
-		for j := i + 1; j < len(ops); j++ {
-			if ops[j].Session != nil {
-				return true
-			}
-		}
-		return false
-	}
 	entity := func(t *structs.TxnOp) string {
 		switch {
 		case t.Node != nil:
@@ -553,7 +545,9 @@ func verifC05CheckEffects(x *kvm.Machine, op *vs.Op) {
 				}
 				if found == nil {
 					bad("check does not exist afterwards")
-				} else if found.Status != want && !(t.Check.Check.Type == "session" && sessionVerbAfter(i)) {
+				} else if found.Status != want && t.Check.Check.Type != "session" {
+					// (the status of a check of type "session" is owned by its session: any later verb of the same
+					// transaction that ends or creates that session — directly or by cascade — legitimately flips it)
 					bad(fmt.Sprintf("check status afterwards is %q, written %q", found.Status, want))
 				}
 			case api.CheckDelete, api.CheckDeleteCAS:
